@@ -1,5 +1,6 @@
 (* C03 — incidence tables are exact transposes of one another. Statements only. *)
 From Verif Require Import Base C02 C02_sup C03 C03_proofs C03_C02_proofs C03_C02_sup_proofs C03_ff_pipeline_proofs.
+From Verif Require Import C03_sym_proofs.
 
 (* edge_face row e = (first face listing e, last face listing e or padding); loop-order model *)
 Theorem C03_edge_face : forall fe npf n e,
@@ -119,3 +120,19 @@ Theorem C03_face_face_pipeline : forall m t f g, std_table m t ->
   = length (filter (fun e => occ_is f g (c03_occ FE NPF e)) (seq 0 n)).
 Proof. exact face_face_of_table. Qed.
 Print Assumptions C03_face_face_pipeline.
+
+(* face_face_connectivity is its own transpose: g is listed in row f exactly as often as f in row g ... *)
+Theorem C03_face_face_symmetric : forall ef f g, f <> g ->
+  count_occ Z.eq_dec (c03_neighbours ef f) g = count_occ Z.eq_dec (c03_neighbours ef g) f.
+Proof. exact face_face_symmetric. Qed.
+Print Assumptions C03_face_face_symmetric.
+
+Theorem C03_face_face_symmetric_in : forall ef f g, f <> g ->
+  (In g (c03_neighbours ef f) <-> In f (c03_neighbours ef g)).
+Proof. exact face_face_symmetric_in. Qed.
+Print Assumptions C03_face_face_symmetric_in.
+
+(* ... and a face is its own neighbour only through a degenerate edge_face row (f, f) *)
+Theorem C03_face_face_self : forall ef f, In f (c03_neighbours ef f) -> In (f, f) ef.
+Proof. exact face_face_self. Qed.
+Print Assumptions C03_face_face_self.
